@@ -22,7 +22,10 @@ def parse_cases(tier, seed):
         txt = open(f, errors='replace').read()
         base = os.path.basename(f)[:-5]
         cases.append({'name': 'full_' + base, 'text': txt, 'valid': 1})
-        cuts = sorted({rnd.randrange(1, max(2, len(txt))) for _ in range(ncuts)})
+        cuts = {rnd.randrange(1, max(2, len(txt))) for _ in range(ncuts)}
+        if len(txt) < 900:       # small programs: truncated at every position (quick: every other one)
+            cuts |= set(range(1, len(txt), 2 if tier == 'quick' else 1))
+        cuts = sorted(cuts)
         for c in cuts:
             cases.append({'name': 'trunc_%s_%d' % (base, c), 'text': txt[:c], 'valid': 0})
         for k in range(3 if tier == 'quick' else 15):
@@ -41,7 +44,7 @@ def run(tier, seed):
     ev = Evidence(PROP, tier, seed, 'exploration')
     ev.cov['rule'] = ('(1) lexer: every string of length <= 4 (quick) / 5 (thorough) over {/ * " \\ newline a 1 . space =} plus the keyword / '
                       'operator dictionary (LexGen.tla): the lexer returns tokens or a reported error within its time budget; '
-                      '(2) parser: every repository example whole, truncated at seeded positions, and with seeded noise '
+                      '(2) parser: every repository example whole, truncated at seeded positions (the small ones at every position), and with seeded noise '
                       '(quotes, comment markers, brackets, oversized numerals, stray bytes), plus hand-written malformed programs: the '
                       'parser returns a tree or a reported error, whole examples are accepted; (3) every repository example and the '
                       'generated timeline / causal / temporal families, and sessions of several read(script) calls in which a script that declares a predicate / class / enum / method fails in a later phase (unknown predicate, identifier, type, field, method, syntax error), the client catches the reported error and goes on with scripts that use the declarations, and programs that apply every operator to operands of the wrong kind (incl. the precedence traps x < 5 | y >= 1 and x != 0 | b), through read() + solve() in a Debug build (assertions on) and '
